@@ -660,6 +660,13 @@ void phpy_set_index_permutation_symmetry_compact_fc(
                         m = i_p * n_satom * 9 + j * 9 + k * 3 + l;
                         n = j_p * n_satom * 9 + i_trans * 9 + l * 3 + k;
                         if (is_transpose) {
+                            /* A block paired with itself (self-inverse */
+                            /* translation) must be swapped only once per */
+                            /* off-diagonal pair. i == j is done above. */
+                            if (j_p == i_p && i_trans == j &&
+                                (i == j || l <= k)) {
+                                continue;
+                            }
                             fc_elem = fc[m];
                             fc[m] = fc[n];
                             fc[n] = fc_elem;
